@@ -16,7 +16,13 @@
  *                 reciprocal with respect to its (rounded) argument: a correctly rounded libm cannot
  *                 do better than that (gauss(x) = exp(y) inherits |y| * relerr(y)). An absolute floor
  *                 of 2*DBL_MIN keeps the test sane where the value underflows.
- *   MF monotone   none for trap/tri/lins/linz, 2 ulps for the pow/exp families, 2eps absolute for dsig
+ *   MF monotone   none for trap/tri/lins/linz, 2 ulps for the pow/exp families. Two places where 2 ulps is
+ *                 not what correct code gives (both seen on the unchanged tree, drop == 2 ulps exactly):
+ *                 (i) a pair of abscissae that straddles the rounded midpoint of an S/Z/pi flank compares values
+ *                 of the two different documented pieces, each good to its formula tolerance -> 8 ulps there;
+ *                 (ii) dsig = s1 - s2 with s1, s2 near 1: every sigmoid carries up to 3.04u = 1.52eps absolute
+ *                 error (exp 1.04u, add u, divide u), a difference of two differences up to 6.1eps -> 8eps
+ *                 absolute (worst observed 1.5eps)
  *   MF continuity 2 * L * ulp(x) + 8eps (L local Lipschitz bound; 8eps = the formula tolerance of the
  *                 two values that are compared, without which a wide set (L*ulp(x) << eps) false-alarms)
  *   complement    2eps
@@ -216,7 +222,10 @@ static void ref_sz(q_t x, q_t a, q_t b, int up, refv *r)
         r->alt = (x <= m) ? hi : lo;
     }
     r->v = (x <= m) ? lo : hi;
-    r->S = q_abs(r->v);
+    /* the piece 1-q (q = 2t^2 <= 1/2) carries 7.04u*q + u/2 absolute error to first order, which is a hair
+       above 4 ulps of the value where the value approaches 1/2: scale |v| + q/16 */
+    r->S = q_abs(r->v) + (((x <= m) == (up != 0)) ? 0 : (up ? qh : ql) / 16);
+    if (r->has_alt) { r->S = q_abs(r->v) + (q_t)1 / 32; }
 }
 static void ref_mf(int f, double xd, double const *p, refv *r)
 {
@@ -234,6 +243,9 @@ static void ref_mf(int f, double xd, double const *p, refv *r)
     {
         q_t t = q_abs((x - c) / a), P, v;
         if (x == c) { r->v = 1; r->S = 1; r->core = 1; break; }
+        /* the normalised distance itself overflows double: the library returns 0 where the exact value is
+           some 1e-295; an overflow artefact in the far tail, judged for range only (see limits) */
+        if (t > (q_t)DBL_MAX) { r->any = 1; break; }
         P = powq(t, 2 * b);
         v = 1 / (1 + P);
         if (!(v == v)) { v = 0; }
@@ -405,4 +417,1197 @@ static void fam_max_flush(void)
     }
 }
 
-/*@PART2@*/
+/* ------------------------------------------------------------------ MF: one parameter tuple */
+typedef struct
+{
+    double x;
+    int region; /* input region (distinct cell) */
+    int anchor; /* 1: x is exactly a break point / centre */
+} mfpt;
+#define MAXPT 768
+#define MAXAN 40
+
+typedef struct
+{
+    double lo, hi;
+    int dir; /* +1 non-decreasing on [lo,hi], -1 non-increasing */
+} mono_piece;
+
+/* break points / characteristic abscissae of a set, its width scale and its local Lipschitz bound */
+static int mf_anchors(int f, double const *p, double *an, double *width, double *lip)
+{
+    static double const gk[] = {0.5, 1, 2, 4, 8.4, 8.6, 20, 38.5, 39};
+    static double const bk[] = {0.5, 1, 2, 10, 1e3, 1e8};
+    static double const sk[] = {1, 4, 30, 36, 37, 100, 700, 709, 710, 745, 746, 800};
+    static double const dk[] = {1, 4, 36, 37, 710, 745};
+    int n = 0;
+    double w = 0, L = 0;
+    unsigned i;
+#define INVW(d) do { if ((d) > 0 && 1 / (d) > L) { L = 1 / (d); } if ((d) > w) { w = (d); } } while (0)
+    switch (f)
+    {
+    case A_MF_GAUSS:
+        an[n++] = p[1];
+        for (i = 0; i < sizeof(gk) / sizeof(*gk); ++i) { an[n++] = p[1] - gk[i] * p[0]; an[n++] = p[1] + gk[i] * p[0]; }
+        w = fabs(p[0]);
+        L = 1 / w;
+        break;
+    case A_MF_GAUSS2:
+        an[n++] = p[1];
+        an[n++] = p[3];
+        for (i = 0; i < sizeof(gk) / sizeof(*gk); ++i) { an[n++] = p[1] - gk[i] * p[0]; an[n++] = p[3] + gk[i] * p[2]; }
+        w = fabs(p[0]) > fabs(p[2]) ? fabs(p[0]) : fabs(p[2]);
+        L = 1 / (fabs(p[0]) < fabs(p[2]) ? fabs(p[0]) : fabs(p[2]));
+        break;
+    case A_MF_GBELL:
+        an[n++] = p[2];
+        for (i = 0; i < sizeof(bk) / sizeof(*bk); ++i) { an[n++] = p[2] - bk[i] * p[0]; an[n++] = p[2] + bk[i] * p[0]; }
+        w = fabs(p[0]);
+        L = p[1] >= 0.5 ? 2 * p[1] / w : 0; /* cusp at c for 2b < 1: no finite Lipschitz bound */
+        break;
+    case A_MF_SIG:
+        an[n++] = p[1];
+        for (i = 0; i < sizeof(sk) / sizeof(*sk); ++i) { an[n++] = p[1] - sk[i] / p[0]; an[n++] = p[1] + sk[i] / p[0]; }
+        w = 1 / fabs(p[0]);
+        L = fabs(p[0]) / 4;
+        break;
+    case A_MF_DSIG:
+    case A_MF_PSIG:
+        an[n++] = p[1];
+        an[n++] = p[3];
+        an[n++] = p[1] / 2 + p[3] / 2;
+        for (i = 0; i < sizeof(dk) / sizeof(*dk); ++i)
+        {
+            an[n++] = p[1] - dk[i] / p[0];
+            an[n++] = p[1] + dk[i] / p[0];
+            an[n++] = p[3] - dk[i] / p[2];
+            an[n++] = p[3] + dk[i] / p[2];
+        }
+        w = 1 / fabs(p[0]) > 1 / fabs(p[2]) ? 1 / fabs(p[0]) : 1 / fabs(p[2]);
+        if (fabs(p[3] - p[1]) > w) { w = fabs(p[3] - p[1]); }
+        L = (fabs(p[0]) + fabs(p[2])) / 4;
+        break;
+    case A_MF_TRAP:
+        for (i = 0; i < 4; ++i) { an[n++] = p[i]; }
+        INVW(p[1] - p[0]);
+        INVW(p[3] - p[2]);
+        if (p[3] - p[0] > w) { w = p[3] - p[0]; }
+        break;
+    case A_MF_TRI:
+        for (i = 0; i < 3; ++i) { an[n++] = p[i]; }
+        INVW(p[1] - p[0]);
+        INVW(p[2] - p[1]);
+        break;
+    case A_MF_LINS:
+    case A_MF_LINZ:
+        an[n++] = p[0];
+        an[n++] = p[1];
+        INVW(p[1] - p[0]);
+        break;
+    case A_MF_S:
+    case A_MF_Z:
+        an[n++] = p[0];
+        an[n++] = p[1];
+        an[n++] = (p[0] + p[1]) / 2;
+        INVW(p[1] - p[0]);
+        L *= 2;
+        break;
+    case A_MF_PI:
+        for (i = 0; i < 4; ++i) { an[n++] = p[i]; }
+        an[n++] = (p[0] + p[1]) / 2;
+        an[n++] = (p[2] + p[3]) / 2;
+        INVW(p[1] - p[0]);
+        INVW(p[3] - p[2]);
+        L *= 2;
+        if (p[3] - p[0] > w) { w = p[3] - p[0]; }
+        break;
+    default: break;
+    }
+#undef INVW
+    if (!(w > 0)) { w = fabs(an[0]) > 0 ? fabs(an[0]) : 1; } /* all break points equal: use the magnitude */
+    *width = w;
+    *lip = L;
+    return n;
+}
+
+/* slack: 0 none, 1 relative 2 ulps, 2 absolute 8eps (dsig) */
+static int mf_mono(int f, double const *p, mono_piece *mp, int *slack)
+{
+    int n = 0;
+#define PIECE(l, h, d) do { mp[n].lo = (l); mp[n].hi = (h); mp[n].dir = (d); ++n; } while (0)
+    *slack = 1;
+    switch (f)
+    {
+    case A_MF_GAUSS: PIECE(-INFINITY, p[1], +1); PIECE(p[1], INFINITY, -1); break;
+    case A_MF_GAUSS2: PIECE(-INFINITY, p[1], +1); PIECE(p[3], INFINITY, -1); break;
+    case A_MF_GBELL: PIECE(-INFINITY, p[2], +1); PIECE(p[2], INFINITY, -1); break;
+    case A_MF_SIG: PIECE(-INFINITY, INFINITY, p[0] > 0 ? +1 : -1); break;
+    case A_MF_DSIG:
+    {
+        /* equal positive slopes, c1 <= c2: rises up to the midpoint of the centres, falls after it */
+        double m = p[1] / 2 + p[3] / 2;
+        *slack = 2;
+        PIECE(-INFINITY, step_ulps(m, -2), +1);
+        PIECE(step_ulps(m, 2), INFINITY, -1);
+        break;
+    }
+    case A_MF_PSIG:
+        if (p[0] > 0 && p[2] > 0) { PIECE(-INFINITY, INFINITY, +1); }
+        else if (p[0] < 0 && p[2] < 0) { PIECE(-INFINITY, INFINITY, -1); }
+        break;
+    case A_MF_TRAP: *slack = 0; PIECE(-INFINITY, p[1], +1); PIECE(p[2], INFINITY, -1); break;
+    case A_MF_TRI: *slack = 0; PIECE(-INFINITY, p[1], +1); PIECE(p[1], INFINITY, -1); break;
+    case A_MF_LINS: *slack = 0; PIECE(-INFINITY, INFINITY, +1); break;
+    case A_MF_LINZ: *slack = 0; PIECE(-INFINITY, INFINITY, -1); break;
+    case A_MF_S: PIECE(-INFINITY, INFINITY, +1); break;
+    case A_MF_Z: PIECE(-INFINITY, INFINITY, -1); break;
+    case A_MF_PI: PIECE(-INFINITY, p[1], +1); PIECE(p[2], INFINITY, -1); break;
+    default: break;
+    }
+#undef PIECE
+    return n;
+}
+
+static int cmp_pt(void const *a, void const *b)
+{
+    mfpt const *x = (mfpt const *)a, *y = (mfpt const *)b;
+    if (x->x < y->x) { return -1; }
+    if (x->x > y->x) { return 1; }
+    return y->anchor - x->anchor; /* exact anchors first so that they survive the de-duplication */
+}
+
+static void mf_tuple(int f, double const *p, vf_rng *r, int want_sample)
+{
+    static mfpt pt[MAXPT];
+    static double got[MAXPT];
+    static refv rv[MAXPT];
+    static char ok[MAXPT];
+    static int const offs[7] = {0, -1, 1, -2, 2, -1000, 1000};
+    double an[MAXAN], san[MAXAN], width, lip;
+    mono_piece mp[3];
+    char const *dn;
+    char key[96];
+    int deg = classify(f, p, &dn), na, n = 0, nm, slack, i, j, nmono = 0, ncont = 0;
+    double *hp;
+
+    vf_log("a_mf_%s params %a %a %a %a (%.17g %.17g %.17g %.17g; first %d used) class %s", fam_name[f], p[0], p[1], p[2], p[3],
+           p[0], p[1], p[2], p[3], fam_np[f], dn);
+    na = mf_anchors(f, p, an, &width, &lip);
+    nm = mf_mono(f, p, mp, &slack);
+    for (i = 0; i < na; ++i)
+    {
+        if (!isfinite(an[i])) { continue; }
+        for (j = 0; j < 7 && n < MAXPT; ++j)
+        {
+            pt[n].x = step_ulps(an[i], offs[j]);
+            pt[n].region = 16 + i * 8 + j;
+            pt[n].anchor = j == 0;
+            ++n;
+        }
+    }
+    memcpy(san, an, sizeof(double) * (size_t)na);
+    for (i = 1; i < na; ++i) /* insertion sort of the anchors */
+    {
+        double t = san[i];
+        for (j = i; j > 0 && san[j - 1] > t; --j) { san[j] = san[j - 1]; }
+        san[j] = t;
+    }
+    for (i = 0; i + 1 < na && n + 3 <= MAXPT; ++i)
+    {
+        double u = san[i], v = san[i + 1];
+        if (!(v > u) || !isfinite(u) || !isfinite(v)) { continue; }
+        pt[n].x = u / 2 + v / 2; pt[n].region = 1024 + i; pt[n].anchor = 0; ++n;
+        pt[n].x = u + (v - u) * vf_unit(r); pt[n].region = 1024 + i; pt[n].anchor = 0; ++n;
+        pt[n].x = u + (v - u) * vf_unit(r); pt[n].region = 1024 + i; pt[n].anchor = 0; ++n;
+    }
+    {
+        static double const fk[] = {1.5, 10, 1e6};
+        double lo = INFINITY, hi = -INFINITY;
+        for (i = 0; i < na; ++i)
+        {
+            if (isfinite(an[i]) && an[i] < lo) { lo = an[i]; }
+            if (isfinite(an[i]) && an[i] > hi) { hi = an[i]; }
+        }
+        for (i = 0; i < 3 && n + 2 <= MAXPT; ++i)
+        {
+            pt[n].x = lo - width * fk[i]; pt[n].region = 1; pt[n].anchor = 0; ++n;
+            pt[n].x = hi + width * fk[i]; pt[n].region = 2; pt[n].anchor = 0; ++n;
+        }
+        if (n + 5 <= MAXPT)
+        {
+            pt[n].x = -1e300; pt[n].region = 3; pt[n].anchor = 0; ++n;
+            pt[n].x = -DBL_MAX; pt[n].region = 3; pt[n].anchor = 0; ++n;
+            pt[n].x = 1e300; pt[n].region = 4; pt[n].anchor = 0; ++n;
+            pt[n].x = DBL_MAX; pt[n].region = 4; pt[n].anchor = 0; ++n;
+            pt[n].x = 0; pt[n].region = 5; pt[n].anchor = 0; ++n;
+        }
+    }
+    qsort(pt, (size_t)n, sizeof(*pt), cmp_pt);
+    for (i = j = 0; i < n; ++i) /* drop repeated abscissae and non-finite ones */
+    {
+        if (!isfinite(pt[i].x) || (j && pt[j - 1].x == pt[i].x)) { continue; }
+        pt[j++] = pt[i];
+    }
+    n = j;
+
+    hp = (double *)malloc(sizeof(double) * (size_t)fam_np[f]); /* exact size: a_mf must not read more than the family's arity */
+    memcpy(hp, p, sizeof(double) * (size_t)fam_np[f]);
+    for (i = 0; i < n; ++i)
+    {
+        double x = pt[i].x, dv;
+        ok[i] = (char)mf_eval(f, p, dn, x, &got[i], &rv[i]);
+        dv = a_mf((unsigned)f, x, hp);
+        VF_COUNT("mf-dispatcher");
+        if (!same_bits(dv, got[i]))
+        {
+            snprintf(key, sizeof(key), "a_mf/dispatcher-differs/%s", fam_name[f]);
+            vf_viol(key, "a_mf(%d, x=%a, {%a, %a, %a, %a}) = %.17g but a_mf_%s gives %.17g", f, x, p[0], p[1], p[2], p[3], dv, fam_name[f], got[i]);
+        }
+        vf_distinct(vf_hash64(vf_hash64(vf_hash64(1, (uint64_t)f), (uint64_t)deg), (uint64_t)pt[i].region));
+        /* complementary pairs */
+        if (f == A_MF_S || f == A_MF_Z || f == A_MF_LINS || f == A_MF_LINZ)
+        {
+            int const g = f == A_MF_S ? A_MF_Z : f == A_MF_Z ? A_MF_S : f == A_MF_LINS ? A_MF_LINZ : A_MF_LINS;
+            double o = lib_mf(g, x, p), e;
+            if (ok[i] && !rv[i].any && o == o)
+            {
+                int const lin = f == A_MF_LINS || f == A_MF_LINZ;
+                e = fabs(got[i] + o - 1) / (2 * EPS);
+                if (lin) { VF_COUNT("mf-lins+linz=1"); VF_MAX("mf-lins+linz-err/tol(2eps)", e); }
+                else { VF_COUNT("mf-s+z=1"); VF_MAX("mf-s+z-err/tol(2eps)", e); }
+                if (!(e <= 1))
+                {
+                    snprintf(key, sizeof(key), "mf_%s/not-complementary/%s", lin ? "lins+linz" : "s+z", dn);
+                    vf_viol(key, "a_mf_%s + a_mf_%s at x=%a (params %a, %a) = %.17g + %.17g, differs from 1 by %.3g eps", fam_name[f], fam_name[g], x,
+                            p[0], p[1], got[i], o, e * 2);
+                }
+            }
+        }
+    }
+    free(hp);
+    /* monotone flanks: neighbouring abscissae inside one monotone piece */
+    for (i = 0; i + 1 < n; ++i)
+    {
+        if (!ok[i] || !ok[i + 1] || rv[i].any || rv[i + 1].any) { continue; }
+        for (j = 0; j < nm; ++j)
+        {
+            double a, b, drop, tol, big;
+            int straddle;
+            if (!(pt[i].x >= mp[j].lo && pt[i + 1].x <= mp[j].hi)) { continue; }
+            a = mp[j].dir > 0 ? got[i] : got[i + 1]; /* must be the smaller one */
+            b = mp[j].dir > 0 ? got[i + 1] : got[i];
+            drop = a - b;
+            big = fabs(a) > fabs(b) ? fabs(a) : fabs(b);
+            tol = slack == 0 ? 0 : slack == 1 ? 2 * EPS * big : 8 * EPS;
+            straddle = 0;
+            if (f == A_MF_S || f == A_MF_Z || f == A_MF_PI)
+            {
+                /* the pair straddles the rounded midpoint of an S/Z flank: the two values come from the two
+                   different documented pieces, each within its 4-ulp formula tolerance -> 8 ulps */
+                double m1 = (p[0] + p[1]) / 2, m2 = f == A_MF_PI ? (p[2] + p[3]) / 2 : m1;
+                if ((pt[i].x <= m1 && m1 <= pt[i + 1].x) || (pt[i].x <= m2 && m2 <= pt[i + 1].x)) { straddle = 1; tol = 8 * EPS * big; }
+            }
+            VF_COUNT("mf-monotone");
+            ++nmono;
+            if (drop > 0 && slack == 2) { VF_MAX("mf-monotone-drop/tol:dsig(8eps)", drop / tol); }
+            else if (drop > 0 && straddle) { VF_MAX("mf-monotone-drop/tol:s,z,pi-midpoint(8ulp)", drop / tol); }
+            else if (drop > 0 && slack) { VF_MAX("mf-monotone-drop/tol(2ulp)", drop / tol); }
+            if (drop > tol)
+            {
+                snprintf(key, sizeof(key), "mf_%s/not-monotone/%s", fam_name[f], dn);
+                vf_viol(key, "a_mf_%s (params %a, %a, %a, %a) is not %s on its flank: f(%a)=%.17g, f(%a)=%.17g (x=%.17g -> %.17g)", fam_name[f], p[0], p[1],
+                        p[2], p[3], mp[j].dir > 0 ? "non-decreasing" : "non-increasing", pt[i].x, got[i], pt[i + 1].x, got[i + 1], pt[i].x, pt[i + 1].x);
+            }
+        }
+    }
+    /* continuity at the break points, one-sided, wherever the documented shape is continuous */
+    for (i = 0; i < n; ++i)
+    {
+        double sp;
+        if (!pt[i].anchor || !ok[i] || rv[i].any || !(lip > 0)) { continue; }
+        sp = spacing(pt[i].x);
+        if (!(2 * lip * sp < 0.25)) { continue; } /* flank only a few ulps wide: the bound says nothing */
+        for (j = -1; j <= 1; j += 2)
+        {
+            int k = i + j;
+            q_t jref;
+            double jump, tol = 2 * lip * sp + 8 * EPS;
+            if (k < 0 || k >= n || !ok[k] || rv[k].any || pt[k].x != step_ulps(pt[i].x, j)) { continue; }
+            jref = q_abs(rv[k].v - rv[i].v);
+            if (jref > (q_t)(2 * lip * sp) + EPS) { continue; } /* documented jump (zero-width flank) */
+            jump = fabs(got[k] - got[i]);
+            VF_COUNT("mf-continuity");
+            ++ncont;
+            VF_MAX("mf-continuity-jump/tol", jump / tol);
+            if (!(jump <= tol))
+            {
+                snprintf(key, sizeof(key), "mf_%s/discontinuous/%s", fam_name[f], dn);
+                vf_viol(key, "a_mf_%s (params %a, %a, %a, %a) jumps at break point x=%a: f(x)=%.17g, f(x%+d ulp)=%.17g, allowed %.3g", fam_name[f], p[0], p[1],
+                        p[2], p[3], pt[i].x, got[i], j, got[k], tol);
+            }
+        }
+    }
+    if (want_sample && vf_want_sample())
+    {
+        vf_sample("a_mf_%s(%.6g,%.6g,%.6g,%.6g)[first %d used] class %s: %d abscissae (break points +-1,2,1000 ulp, mid-flanks, far, +-DBL_MAX) judged for range/"
+                  "core/support/quad formula/dispatcher, %d monotone pairs, %d one-sided continuity tests",
+                  fam_name[f], p[0], p[1], p[2], p[3], fam_np[f], dn, n, nmono, ncont);
+    }
+}
+
+/* ------------------------------------------------------------------ MF: parameter generators */
+static double const mf_scales[7] = {1, 1e-3, 1e3, 1e-30, 1e30, 1e-150, 1e150};
+/* number of generator classes per family */
+static int const fam_ngen[14] = {0, 1, 2, 4, 2, 2, 4, 8, 4, 2, 2, 1, 1, 2};
+
+static void mf_gen(int f, int g, double scale, int offcls, vf_rng *r, double *p)
+{
+    int const smoothpw = f == A_MF_S || f == A_MF_Z || f == A_MF_PI;
+    int const linear = f == A_MF_TRAP || f == A_MF_TRI || f == A_MF_LINS || f == A_MF_LINZ;
+    double off = 0, x[4], gap[3];
+    int i;
+    /* an offset makes the break points large compared with the widths (absorption / cancellation);
+       for the S/Z/pi families the flank width stays >= 2^-17 of the magnitude: below 2^-26 the rounded
+       midpoint (a+b)/2 is distinguishable from the real one at the 2eps level and no double-precision
+       branch test can realise the documented pieces */
+    if (offcls) { off = vf_sign(r) * scale * ldexp(1, (int)vf_range(r, 4, smoothpw ? 14 : 16)); }
+    for (i = 0; i < 3; ++i)
+    {
+        gap[i] = scale * ((smoothpw || vf_chance(r, 1, 2)) ? vf_uniform(r, 0.125, 1) : vf_logu(r, -3, 0));
+    }
+    x[0] = off + scale * vf_uniform(r, -1, 1);
+    for (i = 0; i < 3; ++i)
+    {
+        x[i + 1] = x[i] + gap[i];
+        if (linear && vf_chance(r, 1, 8)) { x[i + 1] = step_ulps(x[i], vf_range(r, 1, 3)); } /* flank a few ulps wide */
+    }
+    p[0] = p[1] = p[2] = p[3] = 0;
+    switch (f)
+    {
+    case A_MF_GAUSS:
+        p[0] = scale * vf_logu(r, -2, 1);
+        p[1] = x[0];
+        break;
+    case A_MF_GAUSS2:
+        p[0] = scale * vf_logu(r, -2, 1);
+        p[1] = x[0];
+        p[2] = scale * vf_logu(r, -2, 1);
+        p[3] = g ? x[0] : x[1];
+        break;
+    case A_MF_GBELL:
+        p[0] = scale * vf_logu(r, -2, 1);
+        p[1] = g == 0 ? 0.5 : g == 1 ? 1 : g == 2 ? (double)vf_range(r, 2, 6) : vf_uniform(r, 0.25, 8);
+        p[2] = x[0];
+        break;
+    case A_MF_SIG:
+        p[0] = (g ? -1 : 1) * vf_logu(r, -1, 2) / scale;
+        p[1] = x[0];
+        break;
+    case A_MF_DSIG: /* equal slopes, ordered centres (quantifier of the property) */
+        p[0] = p[2] = vf_logu(r, -1, 2) / scale;
+        p[1] = x[0];
+        p[3] = g ? x[0] : x[1];
+        break;
+    case A_MF_PSIG:
+        p[0] = ((g == 0 || g == 1) ? 1 : -1) * vf_logu(r, -1, 2) / scale;
+        p[2] = ((g == 1 || g == 3) ? 1 : -1) * vf_logu(r, -1, 2) / scale;
+        p[1] = x[0];
+        p[3] = x[1];
+        break;
+    case A_MF_TRAP:
+        /* g bit 0: a=b, bit 1: b=c, bit 2: c=d */
+        p[0] = x[0];
+        p[1] = (g & 1) ? p[0] : x[1];
+        p[2] = (g & 2) ? p[1] : x[2];
+        p[3] = (g & 4) ? p[2] : x[3];
+        if (!(g & 1) && !(p[1] > p[0])) { p[1] = step_ulps(p[0], 1); }
+        if (!(g & 2) && !(p[2] > p[1])) { p[2] = step_ulps(p[1], 1); }
+        if (!(g & 4) && !(p[3] > p[2])) { p[3] = step_ulps(p[2], 1); }
+        break;
+    case A_MF_TRI:
+        p[0] = x[0];
+        p[1] = (g & 1) ? p[0] : x[1];
+        p[2] = (g & 2) ? p[1] : x[2];
+        if (!(g & 2) && !(p[2] > p[1])) { p[2] = step_ulps(p[1], 1); }
+        break;
+    case A_MF_LINS:
+    case A_MF_LINZ:
+        p[0] = x[0];
+        p[1] = g ? x[0] : x[1];
+        break;
+    case A_MF_S:
+    case A_MF_Z:
+        p[0] = x[0];
+        p[1] = x[1];
+        break;
+    case A_MF_PI:
+        p[0] = x[0];
+        p[1] = x[1];
+        p[2] = g ? x[1] : x[2];
+        p[3] = g ? x[2] : x[3];
+        break;
+    default: break;
+    }
+}
+
+/* ------------------------------------------------------------------ OP: fuzzy operators */
+typedef double (*op2)(double, double);
+static double in_cap(double a, double b) { return a_fuzzy_cap(a, b); }
+static double in_cap_algebra(double a, double b) { return a_fuzzy_cap_algebra(a, b); }
+static double in_cap_bounded(double a, double b) { return a_fuzzy_cap_bounded(a, b); }
+static double in_cup(double a, double b) { return a_fuzzy_cup(a, b); }
+static double in_cup_algebra(double a, double b) { return a_fuzzy_cup_algebra(a, b); }
+static double in_cup_bounded(double a, double b) { return a_fuzzy_cup_bounded(a, b); }
+static double in_equ(double a, double b) { return a_fuzzy_equ(a, b); }
+
+enum { CLS_CAP, CLS_CUP, CLS_EQU };
+typedef struct
+{
+    char const *name;
+    op2 inl, ext; /* header-inline body, exported symbol */
+    unsigned pid; /* A_PID_FUZZY_* selector */
+    int cls;
+    int arith; /* 0: min/max (bitwise), 1: arithmetic (absolute 2eps) */
+} opdesc;
+#define NOPS 7
+static opdesc const ops[NOPS] = {
+    {"equ", in_equ, NULL, A_PID_FUZZY_EQU, CLS_EQU, 1},
+    {"cap", in_cap, vfx_fuzzy_cap, A_PID_FUZZY_CAP, CLS_CAP, 0},
+    {"cap_algebra", in_cap_algebra, vfx_fuzzy_cap_algebra, A_PID_FUZZY_CAP_ALGEBRA, CLS_CAP, 1},
+    {"cap_bounded", in_cap_bounded, vfx_fuzzy_cap_bounded, A_PID_FUZZY_CAP_BOUNDED, CLS_CAP, 1},
+    {"cup", in_cup, vfx_fuzzy_cup, A_PID_FUZZY_CUP, CLS_CUP, 0},
+    {"cup_algebra", in_cup_algebra, vfx_fuzzy_cup_algebra, A_PID_FUZZY_CUP_ALGEBRA, CLS_CUP, 1},
+    {"cup_bounded", in_cup_bounded, vfx_fuzzy_cup_bounded, A_PID_FUZZY_CUP_BOUNDED, CLS_CUP, 1},
+};
+static q_t op_ref(int k, q_t a, q_t b)
+{
+    switch (k)
+    {
+    case 0: return sqrtq(a * b) * sqrtq(1 - (1 - a) * (1 - b));
+    case 1: return q_min(a, b);
+    case 2: return a * b;
+    case 3: return q_max(a + b - 1, 0);
+    case 4: return q_max(a, b);
+    case 5: return a + b - a * b;
+    default: return q_min(a + b, 1);
+    }
+}
+static int op_bucket(double a)
+{
+    return a == 0 ? 0 : a < 0x1p-40 ? 1 : a < 0.25 ? 2 : a < 0.5 ? 3 : a < 0.75 ? 4 : a < 1 ? 5 : 6;
+}
+#define OPKEY(k, what) (snprintf(key, sizeof(key), "fuzzy_%s/%s", ops[k].name, what), key)
+
+/* a <= a2, b <= b2, all in [0,1] */
+static void op_pair(double a, double b, double a2, double b2)
+{
+    char key[96];
+    for (int k = 0; k < NOPS; ++k)
+    {
+        opdesc const *o = &ops[k];
+        double const slack = o->arith ? 2 * EPS : 0;
+        double v = o->inl(a, b), w = o->inl(b, a), pv = a_pid_fuzzy_opr(o->pid)(a, b);
+        q_t ref = op_ref(k, a, b), lo, hi;
+        double mn = a < b ? a : b, mx = a > b ? a : b, err;
+        ++vf.evals;
+        vf_distinct(vf_hash64(vf_hash64(vf_hash64(2, (uint64_t)k), (uint64_t)(a == b ? 0 : a < b ? 1 : 2)), (uint64_t)(op_bucket(a) * 8 + op_bucket(b))));
+        VF_COUNT("op-commutative");
+        if (!same_bits(v, w)) { vf_viol(OPKEY(k, "not-commutative"), "a_fuzzy_%s(%a,%a)=%.17g but (%a,%a) gives %.17g", o->name, a, b, v, b, a, w); }
+        if (o->ext)
+        {
+            double x = o->ext(a, b);
+            VF_COUNT("op-inline==exported");
+            if (!same_bits(v, x)) { vf_viol(OPKEY(k, "inline-vs-exported"), "a_fuzzy_%s(%a,%a): inline body %.17g, exported symbol %.17g", o->name, a, b, v, x); }
+        }
+        VF_COUNT("op-pid-selector");
+        if (!same_bits(v, pv))
+        {
+            vf_viol(OPKEY(k, "pid-selector-differs"), "a_pid_fuzzy_opr(%u)(%a,%a)=%.17g but a_fuzzy_%s gives %.17g", o->pid, a, b, pv, o->name, v);
+        }
+        /* exact formula */
+        VF_COUNT("op-formula");
+        err = (double)q_abs((q_t)v - ref);
+        if (o->arith) { VF_MAX("op-formula-err/tol(2eps)", err / (2 * EPS)); }
+        if (!(o->arith ? err <= slack : same_bits(v, (double)ref)) || !(v >= 0 && v <= 1 + slack))
+        {
+            vf_viol(OPKEY(k, "formula"), "a_fuzzy_%s(%a,%a)=%.17g, exact formula gives %.21Lg (a=%.17g b=%.17g)", o->name, a, b, v, (long double)ref, a, b);
+            continue;
+        }
+        /* class bound */
+        VF_COUNT("op-class-bound");
+        if (o->cls == CLS_CAP && !(v <= mn + slack))
+        {
+            vf_viol(OPKEY(k, "above-min"), "a_fuzzy_%s(%a,%a)=%.17g exceeds min(a,b)=%.17g", o->name, a, b, v, mn);
+        }
+        if (o->cls == CLS_CUP && !(v >= mx - slack))
+        {
+            vf_viol(OPKEY(k, "below-max"), "a_fuzzy_%s(%a,%a)=%.17g is below max(a,b)=%.17g", o->name, a, b, v, mx);
+        }
+        if (o->cls == CLS_EQU)
+        {
+            lo = (q_t)a * b;
+            hi = (q_t)a + b - (q_t)a * b;
+            if (!((q_t)v >= lo - slack && (q_t)v <= hi + slack))
+            {
+                vf_viol(OPKEY(k, "outside-product-sum-bounds"), "a_fuzzy_equ(%a,%a)=%.17g not in [a*b, a+b-a*b]=[%.17g,%.17g]", a, b, v, (double)lo, (double)hi);
+            }
+        }
+        /* monotone in each argument */
+        {
+            double va = o->inl(a2, b), vb = o->inl(a, b2);
+            VF_COUNT("op-monotone");
+            if (o->arith)
+            {
+                if (v > va) { VF_MAX("op-monotone-drop/tol(2eps)", (v - va) / (2 * EPS)); }
+                if (v > vb) { VF_MAX("op-monotone-drop/tol(2eps)", (v - vb) / (2 * EPS)); }
+            }
+            if (!(va >= v - slack))
+            {
+                vf_viol(OPKEY(k, "not-monotone"), "a_fuzzy_%s(%a,%a)=%.17g > a_fuzzy_%s(%a,%a)=%.17g although the first argument grew", o->name, a, b, v, o->name, a2, b, va);
+            }
+            if (!(vb >= v - slack))
+            {
+                vf_viol(OPKEY(k, "not-monotone"), "a_fuzzy_%s(%a,%a)=%.17g > a_fuzzy_%s(%a,%a)=%.17g although the second argument grew", o->name, a, b, v, o->name, a, b2, vb);
+            }
+        }
+        /* boundary identities of the class */
+        if (o->cls != CLS_EQU)
+        {
+            double one = o->inl(a, 1), zero = o->inl(a, 0), one2 = o->inl(1, a), zero2 = o->inl(0, a);
+            double e1 = o->cls == CLS_CAP ? a : 1, e0 = o->cls == CLS_CAP ? 0 : a;
+            VF_COUNT("op-boundary");
+            if (o->arith)
+            {
+                VF_MAX("op-boundary-err/tol(2eps)", fabs(one - e1) / (2 * EPS));
+                VF_MAX("op-boundary-err/tol(2eps)", fabs(zero - e0) / (2 * EPS));
+            }
+            if (!(o->arith ? fabs(one - e1) <= slack && fabs(one2 - e1) <= slack : same_bits(one, e1) && same_bits(one2, e1)))
+            {
+                vf_viol(OPKEY(k, "boundary-identity"), "a_fuzzy_%s(%a,1)=%.17g, (1,%a)=%.17g, expected %.17g", o->name, a, one, a, one2, e1);
+            }
+            if (!(o->arith ? fabs(zero - e0) <= slack && fabs(zero2 - e0) <= slack : same_bits(zero, e0) && same_bits(zero2, e0)))
+            {
+                vf_viol(OPKEY(k, "boundary-identity"), "a_fuzzy_%s(%a,0)=%.17g, (0,%a)=%.17g, expected %.17g", o->name, a, zero, a, zero2, e0);
+            }
+        }
+        else
+        {
+            /* equilibrium operator: equ(a,0) = 0, equ(1,1) = 1, equ(a,a) lies between a^2 and 2a-a^2 */
+            VF_COUNT("op-boundary");
+            if (o->inl(a, 0) != 0 || o->inl(0, a) != 0 || o->inl(1, 1) != 1)
+            {
+                vf_viol(OPKEY(k, "boundary-identity"), "a_fuzzy_equ(%a,0)=%.17g, (0,%a)=%.17g, (1,1)=%.17g", a, o->inl(a, 0), a, o->inl(0, a), o->inl(1, 1));
+            }
+        }
+    }
+    /* complement */
+    {
+        double v = a_fuzzy_not(a), x = vfx_fuzzy_not(a), v2 = a_fuzzy_not(a2);
+        VF_COUNT("op-not");
+        if (!same_bits(v, (double)(1 - (q_t)a)) || !same_bits(v, x) || !(v >= 0 && v <= 1) || !(v2 <= v))
+        {
+            vf_viol("fuzzy_not/formula", "a_fuzzy_not(%a)=%.17g exported %.17g, not(%a)=%.17g", a, v, x, a2, v2);
+        }
+    }
+}
+
+/* a_fuzzy_equ_(gamma,a,b) = (ab)^(1-gamma) (a+b-ab)^gamma. Tolerance 16eps absolute is a NEW constant:
+ * two pow calls on arguments that carry 2u absolute error each; worst observed on the unchanged tree
+ * over seeds 1..5 (quick+thorough) is reported as op-equ_-err/tol and stays below 1/4 */
+#define EQU_TOL (16 * EPS)
+static void op_equ_(double g, double a, double b, double a2)
+{
+    double v = a_fuzzy_equ_(g, a, b), w = a_fuzzy_equ_(g, b, a), va = a_fuzzy_equ_(g, a2, b);
+    q_t ab = (q_t)a * b, s = (q_t)a + b - ab, ref;
+    double err;
+    if (ab != 0 && ab < (q_t)DBL_MIN)
+    {
+        /* a*b is not a normal double: (ab)^(1-gamma) computed through the rounded product is an underflow
+           artefact (e.g. equ_(0.99, 0.25, 2^-1074) = 0, exact 8.4e-5), outside what is judged here */
+        VF_COUNT("op-equ_-skipped-underflow");
+        return;
+    }
+    ++vf.evals;
+    ref = (ab == 0 && g < 1) ? 0 : powq(ab, 1 - (q_t)g) * powq(s, g);
+    if (ab == 0 && g == 1) { ref = s; }
+    err = (double)q_abs((q_t)v - ref);
+    VF_COUNT("op-equ_");
+    VF_MAX("op-equ_-err/tol(16eps)", err / EQU_TOL);
+    vf_distinct(vf_hash64(vf_hash64(vf_hash64(2, 7), (uint64_t)(g == 0 ? 0 : g == 1 ? 2 : 1)), (uint64_t)(op_bucket(a) * 8 + op_bucket(b))));
+    if (!same_bits(v, w)) { vf_viol("fuzzy_equ_/not-commutative", "a_fuzzy_equ_(%a,%a,%a)=%.17g, swapped %.17g", g, a, b, v, w); }
+    if (!(err <= EQU_TOL)) { vf_viol("fuzzy_equ_/formula", "a_fuzzy_equ_(%a,%a,%a)=%.17g, exact %.21Lg", g, a, b, v, (long double)ref); return; }
+    if (!((q_t)v >= ab - EQU_TOL && (q_t)v <= s + EQU_TOL))
+    {
+        vf_viol("fuzzy_equ_/outside-product-sum-bounds", "a_fuzzy_equ_(%a,%a,%a)=%.17g not in [%.17g,%.17g]", g, a, b, v, (double)ab, (double)s);
+    }
+    if (!(va >= v - EQU_TOL)) { vf_viol("fuzzy_equ_/not-monotone", "a_fuzzy_equ_(%a,%a,%a)=%.17g > (%a,%a,%a)=%.17g", g, a, b, v, g, a2, b, va); }
+}
+
+static double const op_grid[] = {0, 0x1p-1074, DBL_MIN, EPS / 2, EPS, 0x1.11eb851eb851fp-30, 0.25, 1.0 / 3, 0.5, 0.75, 1 - EPS, 1 - EPS / 2, 1};
+#define NGRID ((int)(sizeof(op_grid) / sizeof(*op_grid)))
+
+static double op_rand(vf_rng *r)
+{
+    switch (vf_below(r, 8))
+    {
+    case 0: return vf_logu(r, -20, 0);
+    case 1: return 1 - vf_logu(r, -17, 0);
+    case 2: return (double)vf_below(r, 17) / 16;
+    case 3: return op_grid[vf_below(r, NGRID)];
+    default: return vf_unit(r);
+    }
+}
+static double op_above(vf_rng *r, double a)
+{
+    double x;
+    switch (vf_below(r, 4))
+    {
+    case 0: x = step_ulps(a, vf_range(r, 1, 3)); break;
+    case 1: x = a + (1 - a) * vf_unit(r); break;
+    case 2: x = a * (1 + vf_logu(r, -16, -1)); break;
+    default: x = op_rand(r); break;
+    }
+    return (x >= a && x <= 1) ? x : a;
+}
+
+/* ------------------------------------------------------------------ PID: fuzzy gain scheduling */
+enum
+{
+    T_TRI_SHOULDER, /* triangular partition with degenerate shoulders at both ends (as test/pid_fuzzy.h) */
+    T_TRI_WIDE, /* triangles of half-width 1..2 grid steps: up to 4 sets active */
+    T_TRAP, /* trapezoid partition, degenerate outer shoulders */
+    T_LIN_TRI, /* linz, tri..., lins */
+    T_Z_PI_S, /* z, pi..., s */
+    T_GAUSS,
+    T_GAUSS2,
+    T_GBELL,
+    T_SIG, /* sig(-), dsig|psig..., sig(+) */
+    T_MIX, /* every set of a random family */
+    T_NKINDS
+};
+static char const *const tab_name[T_NKINDS] = {"tri-shoulder", "tri-wide", "trap", "linz-tri-lins", "z-pi-s", "gauss", "gauss2", "gbell", "sig-dsig-psig", "mix"};
+
+typedef struct
+{
+    int fam;
+    double p[4];
+} tset;
+typedef struct
+{
+    int kind;
+    int nsets; /* entries in front of the terminator (== order when there is none) */
+    int term; /* 0: exactly `order` entries; otherwise the table ends early with this type code */
+    tset s[8];
+    double L; /* the universe is [-L, L] */
+    double *tab; /* exact-size heap block: what the library walks */
+    size_t len;
+} mtab;
+
+static void tab_build(mtab *t, int kind, int n, double L, vf_rng *r)
+{
+    double h = n > 1 ? 2 * L / (n - 1) : L, c[8];
+    int i;
+    memset(t, 0, sizeof(*t));
+    t->kind = kind;
+    t->L = L;
+    t->nsets = n;
+    for (i = 0; i < n; ++i) { c[i] = n > 1 ? -L + h * i : 0; }
+    for (i = 0; i < n; ++i)
+    {
+        tset *s = &t->s[i];
+        double lo = i > 0 ? c[i - 1] : c[0] - h, hi = i + 1 < n ? c[i + 1] : c[n - 1] + h;
+        switch (kind)
+        {
+        case T_TRI_SHOULDER:
+            s->fam = A_MF_TRI;
+            s->p[0] = (i == 0 && n > 1) ? c[0] : lo;
+            s->p[1] = c[i];
+            s->p[2] = (i == n - 1 && n > 1) ? c[i] : hi;
+            break;
+        case T_TRI_WIDE:
+        {
+            double w = h * (1 + 0.5 * (double)vf_below(r, 3));
+            s->fam = A_MF_TRI;
+            s->p[0] = c[i] - w;
+            s->p[1] = c[i];
+            s->p[2] = c[i] + w;
+            break;
+        }
+        case T_TRAP:
+            s->fam = A_MF_TRAP;
+            s->p[1] = c[i] - h / 4;
+            s->p[2] = c[i] + h / 4;
+            s->p[0] = (i == 0) ? s->p[1] : lo + h / 4;
+            s->p[3] = (i == n - 1) ? s->p[2] : hi - h / 4;
+            break;
+        case T_LIN_TRI:
+            if (i == 0 && n > 1) { s->fam = A_MF_LINZ; s->p[0] = c[0]; s->p[1] = c[1]; }
+            else if (i == n - 1 && n > 1) { s->fam = A_MF_LINS; s->p[0] = c[n - 2]; s->p[1] = c[n - 1]; }
+            else { s->fam = A_MF_TRI; s->p[0] = lo; s->p[1] = c[i]; s->p[2] = hi; }
+            break;
+        case T_Z_PI_S:
+            if (i == 0 && n > 1) { s->fam = A_MF_Z; s->p[0] = c[0]; s->p[1] = c[1]; }
+            else if (i == n - 1 && n > 1) { s->fam = A_MF_S; s->p[0] = c[n - 2]; s->p[1] = c[n - 1]; }
+            else { s->fam = A_MF_PI; s->p[0] = lo; s->p[1] = c[i] - h / 8; s->p[2] = c[i] + h / 8; s->p[3] = hi; }
+            break;
+        case T_GAUSS:
+            s->fam = A_MF_GAUSS;
+            s->p[0] = h * (vf_chance(r, 1, 2) ? 0.1 : vf_chance(r, 1, 2) ? 0.25 : 0.5);
+            s->p[1] = c[i];
+            break;
+        case T_GAUSS2:
+            s->fam = A_MF_GAUSS2;
+            s->p[0] = h * (vf_chance(r, 1, 2) ? 0.08 : 0.3);
+            s->p[1] = c[i] - h / 4;
+            s->p[2] = h * (vf_chance(r, 1, 2) ? 0.08 : 0.3);
+            s->p[3] = c[i] + h / 4;
+            break;
+        case T_GBELL:
+            s->fam = A_MF_GBELL;
+            s->p[0] = h / 2;
+            s->p[1] = (double)vf_range(r, 1, 3);
+            s->p[2] = c[i];
+            break;
+        case T_SIG:
+        {
+            double sl = (vf_chance(r, 1, 2) ? 10 : 40) / h;
+            if (i == 0) { s->fam = A_MF_SIG; s->p[0] = -sl; s->p[1] = c[0] + h / 2; }
+            else if (i == n - 1) { s->fam = A_MF_SIG; s->p[0] = sl; s->p[1] = c[i] - h / 2; }
+            else if (i & 1) { s->fam = A_MF_DSIG; s->p[0] = sl; s->p[1] = c[i] - h / 2; s->p[2] = sl; s->p[3] = c[i] + h / 2; }
+            else { s->fam = A_MF_PSIG; s->p[0] = sl; s->p[1] = c[i] - h / 2; s->p[2] = -sl; s->p[3] = c[i] + h / 2; }
+            break;
+        }
+        default:
+            s->fam = 1 + (int)vf_below(r, 13);
+            mf_gen(s->fam, (int)vf_below(r, 64) % fam_ngen[s->fam], L * vf_uniform(r, 0.2, 0.6), 0, r, s->p);
+            /* the mixed table is about the walk over entries of different lengths, not about degenerate sets
+               (those are driven by the MF cases and by the shoulder partitions): keep these well ordered */
+            if (s->fam == A_MF_TRAP || s->fam == A_MF_TRI || s->fam == A_MF_LINS || s->fam == A_MF_LINZ)
+            {
+                mf_gen(s->fam, 0, L * vf_uniform(r, 0.2, 0.6), 0, r, s->p);
+            }
+            break;
+        }
+    }
+    /* sometimes the table ends early: A_MF_NUL (or an unknown code) terminates the walk */
+    if (n > 1 && vf_chance(r, 1, 6))
+    {
+        t->nsets = (int)vf_range(r, 1, n - 1);
+        t->term = vf_chance(r, 1, 4) ? 99 : -1; /* -1 stands for A_MF_NUL (0) */
+    }
+    for (i = 0, t->len = 0; i < t->nsets; ++i) { t->len += 1 + (size_t)fam_np[t->s[i].fam]; }
+    if (t->term) { t->len += 1; }
+    t->tab = (double *)malloc(sizeof(double) * t->len);
+    {
+        double *w = t->tab;
+        for (i = 0; i < t->nsets; ++i)
+        {
+            *w++ = t->s[i].fam;
+            memcpy(w, t->s[i].p, sizeof(double) * (size_t)fam_np[t->s[i].fam]);
+            w += fam_np[t->s[i].fam];
+        }
+        if (t->term) { *w++ = t->term < 0 ? A_MF_NUL : t->term; }
+    }
+}
+
+/* abscissae worth visiting for a table: break points of its sets, mid-flanks, outside, random */
+static double tab_target(mtab const *t, vf_rng *r)
+{
+    tset const *s = &t->s[vf_below(r, (uint64_t)t->nsets)];
+    double an[MAXAN], w, l;
+    int na = mf_anchors(s->fam, s->p, an, &w, &l), np = fam_np[s->fam];
+    (void)np;
+    switch (vf_below(r, 8))
+    {
+    case 0:
+    case 1: /* a parameter that is an abscissa, exactly */
+        switch (s->fam)
+        {
+        case A_MF_GAUSS: return s->p[1];
+        case A_MF_GBELL: return s->p[2];
+        case A_MF_SIG: return s->p[1];
+        case A_MF_GAUSS2:
+        case A_MF_DSIG:
+        case A_MF_PSIG: return s->p[vf_chance(r, 1, 2) ? 1 : 3];
+        default: return s->p[vf_below(r, (uint64_t)fam_np[s->fam])];
+        }
+    case 2: /* mid-flank: midpoint of two neighbouring break points of the set */
+        if (s->fam >= A_MF_TRAP && fam_np[s->fam] > 1)
+        {
+            int k = (int)vf_below(r, (uint64_t)fam_np[s->fam] - 1);
+            return s->p[k] / 2 + s->p[k + 1] / 2;
+        }
+        return an[vf_below(r, (uint64_t)na)];
+    case 3: return an[vf_below(r, (uint64_t)(na < 9 ? na : 9))];
+    case 4: return vf_sign(r) * t->L * vf_uniform(r, 1, 12);
+    default: return t->L * vf_uniform(r, -1.2, 1.2);
+    }
+}
+
+typedef struct
+{
+    double set, fdb;
+    int fn; /* 0 run, 1 pos, 2 inc */
+    int zero; /* call a_pid_fuzzy_zero before this step */
+} pstep;
+#define MAXSTEP 64
+
+/* memberships of x in every set of the table, exactly as the library evaluates them (same functions,
+ * same arguments); each value is also judged against the quad formula. Returns the number of active sets. */
+static int tab_eval(mtab const *t, double x, int *idx, double *val, int judge, int *near)
+{
+    int n = 0;
+    for (int i = 0; i < t->nsets; ++i)
+    {
+        tset const *s = &t->s[i];
+        double y;
+        if (judge)
+        {
+            char const *dn;
+            classify(s->fam, s->p, &dn);
+            mf_eval(s->fam, s->p, dn, x, &y, NULL);
+        }
+        else { y = lib_mf(s->fam, x, s->p); }
+        /* within 4 ulps of the activation threshold: reference and library could disagree -> skip the step */
+        if (fabs(y - EPS) <= 4 * spacing(EPS)) { *near = 1; }
+        if (y > EPS)
+        {
+            idx[n] = i;
+            val[n] = y;
+            ++n;
+        }
+    }
+    return n;
+}
+
+static char const *const gain_name[3] = {"kp", "ki", "kd"};
+
+static void pid_controller(int order, unsigned opr, int kind_e, int kind_ec, vf_rng *r, int tight, int canon)
+{
+    mtab me, mec;
+    double *mk[3], base[3];
+    pstep st[MAXSTEP];
+    int nst = 0, N = 1, i, g, opk;
+    a_pid_fuzzy *ctx;
+    void *buf;
+    double prev;
+    op2 opfn;
+    char key[96];
+    int const n2 = order * order;
+
+    /* canon: universes [-1,1] and [-2,2] (as test/pid_fuzzy.h), so that grid points and mid-flanks are exact */
+    tab_build(&me, kind_e, order, (canon || vf_chance(r, 1, 2)) ? 1 : vf_logu(r, -2, 3), r);
+    tab_build(&mec, kind_ec, order, (canon || vf_chance(r, 1, 2)) ? 2 : vf_logu(r, -2, 3), r);
+    for (g = 0; g < 3; ++g)
+    {
+        double sc = vf_chance(r, 1, 2) ? 1 : vf_logu(r, -3, 3);
+        mk[g] = NULL;
+        if (vf_chance(r, 1, 10)) { continue; } /* a rule base may be absent */
+        mk[g] = (double *)malloc(sizeof(double) * (size_t)n2);
+        for (i = 0; i < n2; ++i) { mk[g][i] = vf_chance(r, 1, 2) ? sc * (double)vf_range(r, -8, 8) : sc * vf_uniform(r, -8, 8); }
+        base[g] = 0;
+    }
+    for (g = 0; g < 3; ++g) { base[g] = vf_chance(r, 1, 2) ? 0 : vf_uniform(r, -100, 100); }
+    for (opk = 0; opk < NOPS && ops[opk].pid != opr; ++opk) {}
+    if (opk == NOPS) { opk = 0; } /* unknown selector: documented default is the equilibrium operator */
+    opfn = ops[opk].inl;
+
+    /* the plan: pairs of steps so that (e, ec) of the second one hits a chosen target */
+    while (nst + 2 <= (vf.tier ? 48 : 32))
+    {
+        double E = tab_target(&me, r), EC = tab_target(&mec, r), fdb = vf_chance(r, 1, 2) ? 0 : me.L * vf_uniform(r, -3, 3);
+        if (nst == 0 && order > 1)
+        {
+            /* always visit the middle of a flank in both inputs (memberships 1/2, 1/2) */
+            E = me.s[0].fam >= A_MF_TRAP ? (me.s[0].p[fam_np[me.s[0].fam] - 2] + me.s[0].p[fam_np[me.s[0].fam] - 1]) / 2 : E;
+            EC = mec.s[0].fam >= A_MF_TRAP ? (mec.s[0].p[fam_np[mec.s[0].fam] - 2] + mec.s[0].p[fam_np[mec.s[0].fam] - 1]) / 2 : EC;
+            fdb = 0;
+        }
+        st[nst].set = fdb + (E - EC); st[nst].fdb = fdb; st[nst].fn = (int)vf_below(r, 3); st[nst].zero = nst && vf_chance(r, 1, 16); ++nst;
+        st[nst].set = fdb + E; st[nst].fdb = fdb; st[nst].fn = (int)vf_below(r, 3); st[nst].zero = 0; ++nst;
+    }
+    /* the bound on simultaneously active sets, measured over the plan (the tightest "known bound") */
+    {
+        int idx[8], near = 0;
+        double val[8];
+        prev = 0;
+        for (i = 0; i < nst; ++i)
+        {
+            double e = st[i].set - st[i].fdb, ec;
+            int a, b;
+            if (st[i].zero) { prev = 0; }
+            ec = e - prev;
+            prev = e;
+            a = tab_eval(&me, e, idx, val, 0, &near);
+            b = tab_eval(&mec, ec, idx, val, 0, &near);
+            if (a > N) { N = a; }
+            if (b > N) { N = b; }
+        }
+        if ((kind_e == T_TRI_SHOULDER || kind_e == T_TRAP || kind_e == T_LIN_TRI || kind_e == T_Z_PI_S) &&
+            (kind_ec == T_TRI_SHOULDER || kind_ec == T_TRAP || kind_ec == T_LIN_TRI || kind_ec == T_Z_PI_S))
+        {
+            /* partitions: analytically at most two neighbouring sets overlap */
+            VF_COUNT("pid-partition-bound-2");
+            if (N > 2) { fprintf(stderr, "C13 harness: partition with %d active sets\n", N); exit(2); }
+        }
+        if (!tight) { N = order; }
+    }
+    buf = malloc(A_PID_FUZZY_BFUZZ((size_t)N)); /* exact size: the red zone starts right behind the contract */
+    memset(buf, 0xA5, A_PID_FUZZY_BFUZZ((size_t)N));
+    ctx = (a_pid_fuzzy *)malloc(sizeof(*ctx));
+    memset(ctx, 0, sizeof(*ctx));
+    vf_log("a_pid_fuzzy order %d opr %u(%s) me=%s(L=%a,%d sets,term %d) mec=%s(L=%a,%d sets,term %d) bfuzz N=%d (%zu bytes) base %a %a %a mk %d%d%d", order, opr,
+           ops[opk].name, tab_name[kind_e], me.L, me.nsets, me.term, tab_name[kind_ec], mec.L, mec.nsets, mec.term, N, (size_t)A_PID_FUZZY_BFUZZ((size_t)N),
+           base[0], base[1], base[2], !!mk[0], !!mk[1], !!mk[2]);
+    for (i = 0; i < me.nsets; ++i) { vf_log(" me[%d] %s %a %a %a %a", i, fam_name[me.s[i].fam], me.s[i].p[0], me.s[i].p[1], me.s[i].p[2], me.s[i].p[3]); }
+    for (i = 0; i < mec.nsets; ++i) { vf_log(" mec[%d] %s %a %a %a %a", i, fam_name[mec.s[i].fam], mec.s[i].p[0], mec.s[i].p[1], mec.s[i].p[2], mec.s[i].p[3]); }
+    ctx->pid.summax = 1e9;
+    ctx->pid.summin = -1e9;
+    ctx->pid.outmax = 1e9;
+    ctx->pid.outmin = -1e9;
+    a_pid_fuzzy_set_opr(ctx, opr);
+    a_pid_fuzzy_set_rule(ctx, (unsigned)order, me.tab, mec.tab, mk[0], mk[1], mk[2]);
+    a_pid_fuzzy_set_bfuzz(ctx, buf, (a_size)N);
+    a_pid_fuzzy_set_kpid(ctx, base[0], base[1], base[2]);
+    a_pid_fuzzy_init(ctx);
+    /* layout of the scratch block: index part >= 2N unsigned, value part >= (2+N)N reals, both inside the block */
+    VF_COUNT("pid-bfuzz-layout");
+    if (a_pid_fuzzy_bfuzz(ctx) != buf || ctx->nfuzz != (unsigned)N || (void *)ctx->idx != buf ||
+        (char *)ctx->val < (char *)buf + 2 * sizeof(unsigned) * (size_t)N ||
+        (char *)ctx->val + sizeof(a_real) * (size_t)((2 + N) * N) > (char *)buf + A_PID_FUZZY_BFUZZ((size_t)N) ||
+        ((uintptr_t)ctx->val % _Alignof(a_real)) != 0)
+    {
+        vf_viol("pid_fuzzy/bfuzz-layout", "a_pid_fuzzy_set_bfuzz(N=%d): idx at +%td, val at +%td of a %zu byte block", N, (char *)ctx->idx - (char *)buf,
+                (char *)ctx->val - (char *)buf, (size_t)A_PID_FUZZY_BFUZZ((size_t)N));
+    }
+    VF_COUNT("pid-opr-default");
+    if (ctx->opr != a_pid_fuzzy_opr(ops[opk].pid))
+    {
+        vf_viol("pid_fuzzy/set-opr", "a_pid_fuzzy_set_opr(%u) did not install the %s operator", opr, ops[opk].name);
+    }
+
+    prev = 0;
+    for (i = 0; i < nst; ++i)
+    {
+        static char const *const fnn[3] = {"run", "pos", "inc"};
+        int ie[8], iec[8], ne, nec, near = 0, a, b, outcome, zero_reported = 0;
+        double ve[8], vec[8], e, ec, out;
+        if (st[i].zero)
+        {
+            vf_log("a_pid_fuzzy_zero");
+            a_pid_fuzzy_zero(ctx);
+            prev = 0;
+        }
+        e = st[i].set - st[i].fdb;
+        ec = e - prev;
+        prev = e;
+        vf_log("a_pid_fuzzy_%s(set=%a, fdb=%a)  e=%.17g ec=%.17g", fnn[st[i].fn], st[i].set, st[i].fdb, e, ec);
+        out = st[i].fn == 0 ? a_pid_fuzzy_run(ctx, st[i].set, st[i].fdb)
+              : st[i].fn == 1 ? a_pid_fuzzy_pos(ctx, st[i].set, st[i].fdb)
+                              : a_pid_fuzzy_inc(ctx, st[i].set, st[i].fdb);
+        (void)out;
+        ++vf.evals;
+        ne = tab_eval(&me, e, ie, ve, 1, &near);
+        nec = tab_eval(&mec, ec, iec, vec, 1, &near);
+        if (ne > N || nec > N) { fprintf(stderr, "C13 harness: plan bound violated\n"); exit(2); }
+        if (near)
+        {
+            VF_COUNT("pid-skipped-near-threshold");
+            continue;
+        }
+        outcome = (!ne || !nec) ? 0 : 1;
+        for (g = 0; g < 3; ++g)
+        {
+            double got = g == 0 ? ctx->pid.kp : g == 1 ? ctx->pid.ki : ctx->pid.kd;
+            q_t W = 0, num = 0, mean, delta, tol;
+            double cmin = INFINITY, cmax = -INFINITY, cabs = 0, ratio;
+            if (!ne || !nec || !mk[g])
+            {
+                VF_COUNT("pid-gain-base-when-nothing-fires");
+                if (!same_bits(got, base[g] + 0.0))
+                {
+                    snprintf(key, sizeof(key), "pid_fuzzy/%s/changed-without-active-rule", gain_name[g]);
+                    vf_viol(key, "step %d: %s=%.17g but base gain %.17g and %s (ne=%d nec=%d)", i, gain_name[g], got, base[g],
+                            mk[g] ? "no set is active" : "there is no rule base for it", ne, nec);
+                }
+                continue;
+            }
+            for (a = 0; a < ne; ++a)
+            {
+                for (b = 0; b < nec; ++b)
+                {
+                    double w = opfn(ve[a], vec[b]), c = mk[g][ie[a] * order + iec[b]];
+                    W += w;
+                    num += (q_t)w * c;
+                    if (c < cmin) { cmin = c; }
+                    if (c > cmax) { cmax = c; }
+                    if (fabs(c) > cabs) { cabs = fabs(c); }
+                }
+            }
+            VF_COUNT("pid-gain-finite");
+            if (!(W > 0))
+            {
+                /* every joint membership is 0: the weighted mean is undefined, the gain still has to be finite */
+                outcome = 2;
+                if (!isfinite(got))
+                {
+                    if (!zero_reported++)
+                    {
+                        vf_viol("pid_fuzzy/gain-not-finite/all-joint-memberships-zero",
+                                "step %d: %s operator, e=%.17g (%d active sets), ec=%.17g (%d active sets): every joint membership is 0, 1/0 -> kp=%g ki=%g kd=%g "
+                                "(order %d, me=%s L=%.17g, mec=%s L=%.17g)",
+                                i, ops[opk].name, e, ne, ec, nec, ctx->pid.kp, ctx->pid.ki, ctx->pid.kd, order, tab_name[kind_e], me.L, tab_name[kind_ec], mec.L);
+                    }
+                }
+                continue;
+            }
+            if (!isfinite(got))
+            {
+                snprintf(key, sizeof(key), "pid_fuzzy/%s/not-finite", gain_name[g]);
+                vf_viol(key, "step %d: %s=%g with %d x %d active rules and total weight %.17g", i, gain_name[g], got, ne, nec, (double)W);
+                continue;
+            }
+            mean = num / W;
+            delta = (q_t)got - base[g];
+            tol = (q_t)(n2 + 1) * EPS * cabs + (base[g] != 0 ? EPS * fabs(got) : 0) + DBL_MIN;
+            ratio = (double)(q_abs(delta - mean) / tol);
+            VF_COUNT("pid-gain-in-consequent-range");
+            if (!(delta >= (q_t)cmin - tol && delta <= (q_t)cmax + tol))
+            {
+                snprintf(key, sizeof(key), "pid_fuzzy/%s/outside-active-consequents", gain_name[g]);
+                vf_viol(key, "step %d: %s-base=%.17g outside [%.17g, %.17g] of the %d x %d active rules (e=%.17g ec=%.17g opr %s)", i, gain_name[g], (double)delta,
+                        cmin, cmax, ne, nec, e, ec, ops[opk].name);
+                continue;
+            }
+            VF_COUNT("pid-gain-weighted-mean");
+            VF_MAX("pid-gain-err/tol((n^2+1)eps)", ratio);
+            if (cabs > 0) { VF_MAX("pid-gain-err/(n^2*eps*max|c|)", (double)(q_abs(delta - mean) / ((q_t)n2 * EPS * cabs + (base[g] != 0 ? EPS * fabs(got) : 0)))); }
+            if (!(ratio <= 1))
+            {
+                snprintf(key, sizeof(key), "pid_fuzzy/%s/not-weighted-mean", gain_name[g]);
+                vf_viol(key, "step %d: %s-base=%.17g, weighted mean of the %d x %d active consequents is %.17g (error %.3g x tolerance; e=%.17g ec=%.17g opr %s order %d)", i,
+                        gain_name[g], (double)delta, ne, nec, (double)mean, ratio, e, ec, ops[opk].name, order);
+            }
+            else if (g == 0 && vf_want_sample() && ne * nec > 1 && i > 3)
+            {
+                vf_sample("a_pid_fuzzy_%s order %d opr %s me=%s mec=%s bfuzz N=%d: e=%.6g ec=%.6g -> %dx%d active rules, kp-kp0=%.17g, quad weighted mean %.17g, err/tol=%.3g",
+                          fnn[st[i].fn], order, ops[opk].name, tab_name[kind_e], tab_name[kind_ec], N, e, ec, ne, nec, (double)delta, (double)mean, ratio);
+            }
+        }
+        vf_distinct(vf_hash64(vf_hash64(vf_hash64(vf_hash64(3, (uint64_t)opk), (uint64_t)order), (uint64_t)(kind_e * 16 + kind_ec)), (uint64_t)(ne * 32 + nec * 4 + outcome)));
+    }
+    /* detaching the scratch block */
+    a_pid_fuzzy_set_bfuzz(ctx, NULL, 0);
+    VF_COUNT("pid-bfuzz-layout");
+    if (ctx->idx != NULL || ctx->val != NULL || a_pid_fuzzy_bfuzz(ctx) != NULL) { vf_viol("pid_fuzzy/bfuzz-layout", "a_pid_fuzzy_set_bfuzz(NULL, 0) leaves idx=%p val=%p", (void *)ctx->idx, (void *)ctx->val); }
+    free(ctx);
+    free(buf);
+    for (g = 0; g < 3; ++g) { free(mk[g]); }
+    free(me.tab);
+    free(mec.tab);
+}
+
+/* ------------------------------------------------------------------ plan */
+enum { K_MF, K_OP_GRID, K_OP_RANDOM, K_PID };
+typedef struct { int kind; uint64_t arg; } plan_t;
+static plan_t *plan;
+static uint64_t nplan;
+static void plan_add(int kind, uint64_t arg)
+{
+    static uint64_t cap;
+    if (nplan == cap)
+    {
+        cap = cap ? cap * 2 : 1024;
+        plan = (plan_t *)realloc(plan, cap * sizeof(*plan));
+    }
+    plan[nplan].kind = kind;
+    plan[nplan].arg = arg;
+    ++nplan;
+}
+
+static void vf_init(void)
+{
+    /* interleave the three groups so that every worker gets a share of each */
+    uint64_t const mf_reps = vf.tier ? 400 : 16, op_cases = vf.tier ? 6000 : 240, pid_reps = vf.tier ? 160 : 6;
+    uint64_t rep;
+    plan_add(K_OP_GRID, 0);
+    for (rep = 0; rep < mf_reps; ++rep)
+    {
+        for (int f = 1; f < 14; ++f)
+        {
+            for (int g = 0; g < fam_ngen[f]; ++g)
+            {
+                for (int s = 0; s < 7; ++s)
+                {
+                    for (int o = 0; o < 2; ++o) { plan_add(K_MF, (uint64_t)f | (uint64_t)g << 8 | (uint64_t)s << 16 | (uint64_t)o << 24 | rep << 32); }
+                }
+            }
+        }
+    }
+    for (rep = 0; rep < op_cases; ++rep) { plan_add(K_OP_RANDOM, rep); }
+    for (rep = 0; rep < pid_reps; ++rep)
+    {
+        for (int n = 1; n <= 7; ++n)
+        {
+            for (int o = 0; o < 8; ++o) /* the seven selectors and an unknown one */
+            {
+                for (int k = 0; k < T_NKINDS; ++k) { plan_add(K_PID, (uint64_t)n | (uint64_t)o << 4 | (uint64_t)k << 8 | rep << 16); }
+            }
+        }
+    }
+}
+static uint64_t vf_ncases(int tier) { (void)tier; return nplan; }
+static void vf_fini(void) { fam_max_flush(); }
+
+static void vf_case(uint64_t cno, vf_rng *r)
+{
+    plan_t const pl = plan[cno];
+    switch (pl.kind)
+    {
+    case K_MF:
+    {
+        int const f = (int)(pl.arg & 0xFF), g = (int)(pl.arg >> 8 & 0xFF), s = (int)(pl.arg >> 16 & 0xFF), o = (int)(pl.arg >> 24 & 0xFF);
+        int const ntuple = 12;
+        for (int t = 0; t < ntuple; ++t)
+        {
+            double p[4];
+            mf_gen(f, g, mf_scales[s], o, r, p);
+            mf_tuple(f, p, r, t == 0 && s == 0 && (cno % 5) == 0);
+        }
+        break;
+    }
+    case K_OP_GRID:
+        vf_log("fuzzy operators on the grid of %d x %d membership pairs", NGRID, NGRID);
+        for (int i = 0; i < NGRID; ++i)
+        {
+            for (int j = 0; j < NGRID; ++j)
+            {
+                for (int i2 = i; i2 < NGRID; ++i2) { op_pair(op_grid[i], op_grid[j], op_grid[i2], op_grid[j + (i2 - i) < NGRID ? j + (i2 - i) : NGRID - 1]); }
+                for (int k = 0; k <= 4; ++k) { op_equ_(k / 4.0, op_grid[i], op_grid[j], op_grid[i < NGRID - 1 ? i + 1 : i]); }
+            }
+        }
+        vf_sample("all a_fuzzy_* operators on the grid {0, 2^-1074, DBL_MIN, eps/2, eps, 1.07*2^-30, .25, 1/3, .5, .75, 1-eps, 1-eps/2, 1}^2: commutative (bitwise), "
+                  "exact formula (quad), class bound, monotone against every larger grid value, boundary identities, inline==exported==a_pid_fuzzy_opr()");
+        break;
+    case K_OP_RANDOM:
+        vf_log("fuzzy operators on 4096 random membership pairs");
+        for (int i = 0; i < 4096; ++i)
+        {
+            double a = op_rand(r), b = op_rand(r), a2 = op_above(r, a), b2 = op_above(r, b);
+            if (vf_chance(r, 1, 16)) { b = a; b2 = a2; }
+            vf_log("pair a=%a b=%a a2=%a b2=%a", a, b, a2, b2);
+            op_pair(a, b, a2, b2);
+            op_equ_((double)vf_below(r, 1025) / 1024, a, b, a2);
+        }
+        break;
+    default:
+    {
+        int const n = (int)(pl.arg & 0xF), o = (int)(pl.arg >> 4 & 0xF), k = (int)(pl.arg >> 8 & 0xFF);
+        unsigned const opr = o < 7 ? (unsigned)o : (vf_chance(r, 1, 2) ? 7u : 1000u);
+        /* first controller: e and ec tables of the same kind on the canonical universes, tight buffer */
+        pid_controller(n, opr, k, k, r, 1, 1);
+        for (int c = 0; c < 3; ++c) { pid_controller(n, opr, k, (int)vf_below(r, T_NKINDS), r, c != 2, 0); }
+        break;
+    }
+    }
+}
